@@ -209,6 +209,28 @@ def special_corruptions(rng, wal, frames, sps):
     return out
 
 
+def mapping_leak(run, name, ops, crc, r, reset=None):
+    """_rollforward_exl maps the log and has to unmap it: the recovery step of the harness counts the mappings of the log
+    file that are still there afterwards.  The pinned source calls munmap with the pointer it advanced to the reset mark
+    (EINVAL, the mapping stays; with a page-aligned mark it would unmap foreign memory): not a statement of C05 (the
+    state is right), a resource leak - judged only with VERIF_WAL_MUNMAP=1 (fixes/wal-munmap-base.diff)"""
+    n = W.fields(r["impl_wal"]).get("walmaps", "0")
+    if n in ("0", None):
+        return
+    run.dist("log_mapping_left_after_recovery")
+    if os.environ.get("VERIF_WAL_MUNMAP") != "1":
+        return
+    run.cov.setdefault("violations_by_class", {})
+    run.cov["violations_by_class"]["wal-mapping-leak"] = run.cov["violations_by_class"].get("wal-mapping-leak", 0) + 1
+    if run.cov["violations_by_class"]["wal-mapping-leak"] <= 1:
+        rep = {"ops": ops, "crc": crc, "cut": r["cut"], "flips": [], "class": "wal-mapping-leak", "impl": r["impl_wal"][:300]}
+        if reset:
+            rep["reset_at"] = reset[0]
+            rep["resize_before_mark"] = len(reset) > 2 and bool(reset[2])
+        run.violation(rep, "%s mapping(s) of the log file left after the recovery step (%s): _rollforward_exl calls munmap with the "
+                           "pointer it advanced to the reset mark" % (n, name))
+
+
 def open_finding(run, cl):
     """a reproduced defect of the format that is not (yet) listed in known_findings.json is reported as a violation only
     when VERIF_WAL_OPEN=1; once listed (match on `class`) it is always reported and recognised as known"""
@@ -404,6 +426,7 @@ def do_history(run, impl, model, wd, name, crc, ops, ncut, nflip, corpus_cases=N
         kind = "flip" if r["flips"] else "cut"
         rcrc = r["rcrc"]
         run.dist("case_" + kind)
+        mapping_leak(run, name, ops, crc, r)
         if cross:
             # the recovering process was opened with other options than the process that wrote the log; the question
             # asked is the same
@@ -529,6 +552,7 @@ def do_history(run, impl, model, wd, name, crc, ops, ncut, nflip, corpus_cases=N
             for r in eval_cases(run, impl, model, wd, h2, rcases, "r%d" % b):
                 cross = r["rcrc"] != crc
                 run.dist("case_reset_mark")
+                mapping_leak(run, name, ops, crc, r, h2["reset"])
                 if cross:
                     run.dist("recovery_cross_config")
                     run.dist("recovery_cross_config_log_with_reset_mark")
@@ -557,6 +581,7 @@ def do_history(run, impl, model, wd, name, crc, ops, ncut, nflip, corpus_cases=N
                 h3 = dict(hist, reset=(b, os.path.join(pre, "db"), True))
                 for r in eval_cases(run, impl, model, wd, h3, [(c, []) for c in sorted(pts[:nreset])[::3]] + [(len(wal), [])], "z%d" % b):
                     run.dist("case_reset_mark_after_resize_record")
+                    mapping_leak(run, name, ops, crc, r, h3["reset"])
                     run.case("%s|%d|resize+reset%d|%s" % (" ".join(ops), crc, b, r["cut"]), nontrivial=True)
                     t2 = t2_compare(r, crc)
                     if t2 and t2 != "skip":
